@@ -1,4 +1,4 @@
-(* Proofs/C16_Codecs.v — the concrete world of Model/C16_Codecs.v (nine codecs; UTF-16/32 proofs are in
+(* Proofs/C16_Codecs.v — the concrete world of Model/C16_Codecs.v (eleven codecs; UTF-16/32 and charmap proofs are in
    Proofs/C16_Utf16.v) satisfies every
    contract the abstract theorems assume:
      * UTF-8: decode (encode t) = t for every surrogate-free text (any error policy),
@@ -10,7 +10,7 @@
      * the NFKD fold driven by the generated table yields ASCII and fixes ASCII. *)
 From Coq Require Import String.
 Require Import OV.Base.Bytes OV.Base.PyInt OV.Base.Str OV.Base.C16_Py.
-Require Import OV.Gen.C16_Aliases OV.Gen.C16_Fold OV.Gen.C16_Code.
+Require Import OV.Gen.C16_Aliases OV.Gen.C16_Fold OV.Gen.C16_Charmaps OV.Gen.C16_Code.
 Require Import OV.Model.C16 OV.Model.C16_Codecs OV.Proofs.C16_Slug OV.Proofs.C16_Utf16.
 Open Scope N_scope.
 
@@ -272,6 +272,8 @@ Proof.
     rewrite (proj2 (utf32_enc_strict_any _ _ _ E)). reflexivity.
   - apply (utf32_enc_strict_any _ _ _ H).
   - apply (utf32_enc_strict_any _ _ _ H).
+  - apply (charmap_enc_strict_any _ _ _ H).
+  - apply (charmap_enc_strict_any _ _ _ H).
 Qed.
 
 Theorem world3_dec_policy_irrelevant d c : dec_policy_irrelevant (world3 d) c.
@@ -286,6 +288,8 @@ Proof.
   - apply utf32_bom_dec_strict_any. exact H.
   - apply (utf32_dec_strict_canonical _ _ _ H).
   - apply (utf32_dec_strict_canonical _ _ _ H).
+  - apply (charmap_dec_strict_canonical _ _ _ H).
+  - apply (charmap_dec_strict_canonical _ _ _ H).
 Qed.
 
 (* what each codec can represent *)
@@ -293,6 +297,8 @@ Definition representable3 (c : codec_id) (t : str) : bool :=
   match c with
   | CLatin1 => forallb (fun x => x <? 256) t
   | CAscii => forallb (fun x => x <? 128) t
+  | CCp1252 => charmap_repr cp1252_table t
+  | CKoi8R => charmap_repr koi8r_table t
   | _ => valid_text t
   end.
 
@@ -316,6 +322,8 @@ Proof.
   - destruct (utf32_bom_roundtrip t H) as (b & He & Hd). exists b. split; intros e; [apply He|apply Hd].
   - destruct (utf32_roundtrip true t H) as (b & He & Hd). exists b. split; intros e; [apply He|apply Hd].
   - destruct (utf32_roundtrip false t H) as (b & He & Hd). exists b. split; intros e; [apply He|apply Hd].
+  - destruct (charmap_roundtrip _ t H) as (b & He & Hd). exists b. split; intros e; [apply He|apply Hd].
+  - destruct (charmap_roundtrip _ t H) as (b & He & Hd). exists b. split; intros e; [apply He|apply Hd].
 Qed.
 
 (* a strict encoding exists exactly for representable text *)
@@ -331,6 +339,8 @@ Proof.
   - unfold utf32_bom_enc in H. destruct (cmap_ok _ _ _ H) as (b' & E & _). apply (utf32_enc_strict_any _ _ _ E).
   - apply (utf32_enc_strict_any _ _ _ H).
   - apply (utf32_enc_strict_any _ _ _ H).
+  - apply (charmap_enc_strict_any _ _ _ H).
+  - apply (charmap_enc_strict_any _ _ _ H).
 Qed.
 
 Theorem world3_codec_roundtrip d c : codec_roundtrip (world3 d) c.
@@ -379,6 +389,8 @@ Proof.
   - apply (proj2 (utf16_dec_strict_canonical _ _ _ H) Hb).
   - apply (proj2 (utf32_dec_strict_canonical _ _ _ H) Hb).
   - apply (proj2 (utf32_dec_strict_canonical _ _ _ H) Hb).
+  - apply (proj2 (charmap_dec_strict_canonical _ _ _ H) cp1252_table_inj).
+  - apply (proj2 (charmap_dec_strict_canonical _ _ _ H) koi8r_table_inj).
 Qed.
 
 (* whatever a codec strictly decodes (from bytes) is text it can represent *)
@@ -407,6 +419,8 @@ Proof.
     apply (proj2 (utf32_dec_strict_canonical _ _ _ H) Hb).
   - apply (proj2 (utf32_dec_strict_canonical _ _ _ H) Hb).
   - apply (proj2 (utf32_dec_strict_canonical _ _ _ H) Hb).
+  - apply (proj2 (charmap_dec_strict_canonical _ _ _ H) cp1252_table_inj).
+  - apply (proj2 (charmap_dec_strict_canonical _ _ _ H) koi8r_table_inj).
 Qed.
 
 (* ================= codec-name lookup and letter case ================= *)
@@ -429,6 +443,29 @@ Theorem lookup3_lower name : forallb is_ascii name = true -> lookup3 (py_lower n
 Proof.
   intros H. rewrite (py_lower_ascii _ H). unfold lookup3, norm_name. rewrite norm_go_lower. reflexivity.
 Qed.
+
+(* lookup depends only on the ASCII-lower-cased name ... *)
+Theorem lookup3_case a b : lower_ascii a = lower_ascii b -> lookup3 a = lookup3 b.
+Proof.
+  intros H. unfold lookup3, norm_name. rewrite <- (norm_go_lower a), <- (norm_go_lower b), H. reflexivity.
+Qed.
+
+(* ... and not on WHICH separator is written between the alphanumeric parts: '-', '_', ' ' (any character other
+   than [A-Za-z0-9.]) are interchangeable, e.g. utf-8 / utf_8 / "utf 8" *)
+Definition is_sep (c : N) : bool := negb (is_alnum_ascii c || (c =? 46)).
+Definition same_but_seps (a b : str) : Prop :=
+  Forall2 (fun x y => x = y \/ (is_sep x = true /\ is_sep y = true)) a b.
+
+Lemma norm_go_seps a b : same_but_seps a b -> forall p st, norm_go a p st = norm_go b p st.
+Proof.
+  induction 1 as [|x y a b Hxy _ IH]; intros p st; [reflexivity|].
+  destruct Hxy as [->|[Hx Hy]].
+  - cbn [norm_go]. rewrite !IH. reflexivity.
+  - cbn [norm_go]. unfold is_sep in Hx, Hy. apply negb_true_iff in Hx, Hy. rewrite Hx, Hy. apply IH.
+Qed.
+
+Theorem lookup3_seps a b : same_but_seps a b -> lookup3 a = lookup3 b.
+Proof. intros H. unfold lookup3, norm_name. rewrite (norm_go_seps a b H). reflexivity. Qed.
 
 Lemma lookup3_nonempty name c : lookup3 name = Some c -> name <> [].
 Proof. intros H ->. vm_compute in H. discriminate. Qed.
